@@ -605,3 +605,94 @@ vk_harness!(c04_recompile_when_listing_emptied, {
     vk_cover!(true, "reach: recompile empty listing");
     core::mem::forget(r);
 });
+
+// ---------------------------------------------------------------------------------------------------------------
+// C18 / C01: frames on the value stack — RETURN, and what a failed statement leaves behind
+
+fn push_for_frame(r: &mut Runtime) {
+    // what FOR leaves on the stack: limit, step, variable name, loop address
+    r.stack.push(Val::Integer(vk::any_i16())).unwrap();
+    r.stack.push(Val::Integer(vk::any_i16())).unwrap();
+    r.stack.push(Val::String("I".into())).unwrap();
+    r.stack.push(Val::Next(vk::any_u16() as usize)).unwrap();
+}
+
+//@ prop: C18 C01
+//@ tier: quick
+//@ unwind: 12
+//@ caps: VEC=8
+//@ encodes: Runtime::r#return; Stack::pop; Stack::push
+//@ bounds: stack = [Integer(any)] + Return(any address) + 0 or 1 unfinished FOR frame (limit, step, name, Next) above it; VEC capacity 8
+vk_harness!(c18_return_discards_loop_frames, {
+    let mut r = Runtime::default();
+    r.stack.push(Val::Integer(vk::any_i16())).unwrap();
+    let addr = vk::any_u16() as usize;
+    r.stack.push(Val::Return(addr)).unwrap();
+    let in_loop = vk::any_bool();
+    if in_loop {
+        push_for_frame(&mut r);
+    }
+    r.pc = vk::any_u16() as usize;
+    let got = r.r#return();
+    vk_check!(got.is_ok(), "C01: RETURN with a pending GOSUB must succeed");
+    vk_check!(r.pc == addr, "C01: RETURN continues after the GOSUB that pushed the frame");
+    vk_check!(r.stack.len() == 1, "C18: RETURN must leave nothing of the subroutine behind (loop frames abandoned inside it included)");
+    vk_check!(matches!(r.stack.last(), Some(Val::Integer(_))), "C18: RETURN must not disturb what was on the stack before the GOSUB");
+    vk_cover!(in_loop, "reach: return out of an unfinished FOR loop");
+    vk_cover!(!in_loop, "reach: plain return");
+    core::mem::forget(r);
+});
+
+//@ prop: C18 C10
+//@ tier: quick
+//@ unwind: 12
+//@ encodes: Runtime::r#return (function-result form)
+//@ bounds: stack = [Integer(any), Return(any address), result] with the result an Integer, a Single or a 1-character string
+vk_harness!(c18_return_keeps_function_result, {
+    let mut r = Runtime::default();
+    r.stack.push(Val::Integer(vk::any_i16())).unwrap();
+    let addr = vk::any_u16() as usize;
+    r.stack.push(Val::Return(addr)).unwrap();
+    let kind = vk::any_below(3);
+    let x = vk::any_i16();
+    r.stack.push(match kind {
+        0 => Val::Integer(x),
+        1 => Val::Single(x as f32),
+        _ => Val::String("Z".into()),
+    })
+    .unwrap();
+    let got = r.r#return();
+    vk_check!(got.is_ok() && r.pc == addr, "C10: returning from a user function resumes after the call");
+    vk_check!(r.stack.len() == 2, "C10: exactly one value - the function result - is handed back");
+    match (kind, r.stack.last()) {
+        (0, Some(Val::Integer(y))) => vk_check!(*y == x, "C10: the function result is handed back unchanged"),
+        (1, Some(Val::Single(y))) => vk_check!(*y == x as f32, "C10: the function result is handed back unchanged"),
+        (2, Some(Val::String(s))) => vk_check!(&**s == "Z", "C10: the function result is handed back unchanged"),
+        _ => vk_check!(false, "C10: the function result was lost or changed type"),
+    }
+    vk_cover!(kind == 2, "reach: string result");
+    core::mem::forget(r);
+});
+
+//@ prop: C18
+//@ tier: quick
+//@ unwind: 12
+//@ encodes: Runtime::r#return (no pending GOSUB)
+//@ bounds: stack = 0..=3 entries none of which is a Return frame (Integers and Next frames)
+vk_harness!(c18_return_without_gosub, {
+    let mut r = Runtime::default();
+    let n = vk::any_below(4) as usize;
+    let mut i = 0;
+    while i < n {
+        let v = if vk::any_bool() { Val::Integer(vk::any_i16()) } else { Val::Next(vk::any_u16() as usize) };
+        r.stack.push(v).unwrap();
+        i += 1;
+    }
+    let got = r.r#return();
+    match got {
+        Err(e) => vk_check!(ec::code_of(&e) == 3, "C01: RETURN without a pending GOSUB is RETURN WITHOUT GOSUB"),
+        Ok(()) => vk_check!(false, "C01: RETURN succeeded without a pending GOSUB"),
+    }
+    vk_cover!(n == 3, "reach: three entries");
+    core::mem::forget(r);
+});
